@@ -20,7 +20,7 @@ CLOCK0 = 1500000000
 
 
 def alphabet(tier):
-    defs = DEFS if tier == 'thorough' else DEFS[:9]
+    defs = DEFS if tier == 'thorough' else DEFS[:7] + DEFS[9:]
     return [('define',) + d for d in defs] + CTRL
 
 
@@ -141,7 +141,9 @@ def _shard(shard, nshards, payload):
                 if why.startswith('HARNESS'):
                     st.notes.append(why)
                     continue
-                real = real_replay(hist)
+                segs = segments_of(hist)
+                is_last = (pi == len(segs) - 1) and (i == len(segs[-1][1]) - 1)
+                real = real_replay(hist) if is_last else None
                 note = ''
                 if real is not None:
                     st.inc('real_replays')
